@@ -48,7 +48,7 @@ fn filters(tier: Tier) -> Vec<(String, Vec<Vec<f64>>)> {
 
 pub fn run(tier: Tier) -> i32 {
     let rep = Report::new("C07", tier, "model_checking");
-    rep.set_rule("SCOPE: per (rate in {8k,16k,48k,96k}) x (frame period in {40,80,240,480}): all 512 frame triples over {unvoiced, F0 in {20,55.3,123.4,440,rate/2,10(clamps to 20),30k(clamps to 20k)} Hz} followed by 20 repetitions of the last symbol; filters: none plus the listed odd-length low-pass sets (constant and changing per frame); real Vocoder with zero spectrum; oracle: pulse height^2 = linearly gliding period, stationary spacing floor/ceil(T0), unit mean power, unvoiced samples bit-equal to the reference noise run, LPF output = h*pulses + (delta-h)*noise; distinct = (cell, triple, filter); non-trivial = contains a voiced frame");
+    rep.set_rule("SCOPE: per (rate in {8k,16k,48k,96k}) x (frame period in {40,80,240,480}): all 512 frame triples over {unvoiced, F0 in {20,55.3,123.4,440,rate/2,10(clamps to 20),30k(clamps to 20k)} Hz} followed by 20 repetitions of the last symbol; filters: none plus the listed odd-length low-pass sets (constant and changing per frame); real Vocoder with zero spectrum; oracle: pulse height^2 = linearly gliding period, stationary spacing floor/ceil(T0), unit mean power, unvoiced samples bit-equal to the reference noise run, LPF output = h*pulses + (delta-h)*noise; two vocoders (all pairs of 6 rate/period/low-pass configurations) stepped alternately on one thread produce what each produces alone; distinct = (cell, triple, filter); non-trivial = contains a voiced frame");
     rep.assume("F0 values on the 7-point lattice; T0 is an exact integer for no lattice point (first inter-pulse interval after an onset is ceil(T0)-1 = floor(T0))");
     let rates = [8000usize, 16000, 48000, 96000];
     let fps = [40usize, 80, 240, 480];
@@ -242,6 +242,51 @@ pub fn run(tier: Tier) -> i32 {
             }
         }
     });
+    // two vocoders alive at once and stepped alternately on one thread (a server streaming two voices): each must
+    // produce exactly what it produces alone. Pairs differ in rate, frame period, low-pass length or nothing at all.
+    let mut interleaved = 0u64;
+    {
+        let f0s = [f64::NEG_INFINITY, 123.4f64.ln(), 123.4f64.ln(), 440f64.ln(), f64::NEG_INFINITY, 55.3f64.ln(), 55.3f64.ln(), 55.3f64.ln()];
+        let mk = |nlpf: usize| -> Vec<(f64, Vec<f64>)> {
+            f0s.iter().map(|f| (if f.is_finite() { *f } else { -1e10 }, if nlpf == 0 { vec![] } else { (0..nlpf).map(|k| if k == nlpf / 2 { 0.6 } else { 0.1 / (1 + k) as f64 }).collect() })).collect()
+        };
+        let cfgs: Vec<(usize, usize, usize)> = vec![(48000, 240, 0), (16000, 80, 0), (16000, 80, 3), (8000, 40, 5), (48000, 80, 3), (16000, 240, 0)];
+        for (ai, a) in cfgs.iter().enumerate() {
+            for b in cfgs.iter().skip(ai) {
+                let (fa, fb) = (mk(a.2), mk(b.2));
+                let (sa, sb) = (run_voc(a.0, a.1, a.2, &fa), run_voc(b.0, b.1, b.2, &fb));
+                let (a2, b2, fa2, fb2) = (*a, *b, fa.clone(), fb.clone());
+                let both = catch(move || {
+                    let mut va = Vocoder::new(3, a2.2, 0, false, a2.0, 0.42, 0.0, 1.0, a2.1);
+                    let mut vb = Vocoder::new(3, b2.2, 0, false, b2.0, 0.42, 0.0, 1.0, b2.1);
+                    let (mut oa, mut ob) = (Vec::new(), Vec::new());
+                    for i in 0..fa2.len() {
+                        let mut buf = vec![0.0; a2.1];
+                        va.synthesize(fa2[i].0, &[0.0, 0.0, 0.0], &fa2[i].1, &mut buf);
+                        oa.extend(buf);
+                        let mut buf = vec![0.0; b2.1];
+                        vb.synthesize(fb2[i].0, &[0.0, 0.0, 0.0], &fb2[i].1, &mut buf);
+                        ob.extend(buf);
+                    }
+                    (oa, ob)
+                });
+                rep.eval(1);
+                interleaved += 1;
+                rep.cmp(2);
+                let rp = json!({"vocoder_a": {"rate": a.0, "fperiod": a.1, "lowpass_taps": a.2}, "vocoder_b": {"rate": b.0, "fperiod": b.1, "lowpass_taps": b.2}, "frames_f0_hz": ["unvoiced", 123.4, 123.4, 440.0, "unvoiced", 55.3, 55.3, 55.3]});
+                match (sa, sb, both) {
+                    (Ok(sa), Ok(sb), Ok((oa, ob))) => {
+                        if !bits_eq(&sa, &oa) || !bits_eq(&sb, &ob) {
+                            rep.violation("interleaved", format!("two vocoders stepped alternately on one thread: vocoder {} no longer produces what it produces alone", if bits_eq(&sa, &oa) { "b" } else { "a" }), rp);
+                        }
+                    }
+                    (_, _, Err(p)) => rep.violation("interleaved-panic", p, rp),
+                    _ => {}
+                }
+            }
+        }
+    }
+    rep.note("interleaved_vocoder_pairs", json!(interleaved));
     rep.nontrivial.store(nontriv.load(Ordering::Relaxed), Ordering::Relaxed);
     rep.note("bounds", json!({"rates": rates, "frame_periods": fps, "symbols": 8, "triples_per_cell": 512, "repeats_of_last": 20, "filters": flt.iter().map(|f| f.0.clone()).collect::<Vec<_>>(), "stationary_intervals_checked": stat_checked.load(Ordering::Relaxed), "power_checks": power_checked.load(Ordering::Relaxed)}));
     rep.sample(json!({"rate": 8000, "fperiod": 40, "frame_f0_hz": ["unvoiced", 20.0, 440.0, "440 x20"], "filter": "none"}));
